@@ -23,7 +23,7 @@ NOT_COVERED = [
     "estimators 'mode' (scipy gaussian_kde) and 'biweight' (nonlinear, see C19)",
     "the statistical clause about guess_xx / the sex report under noise (scipy median_test; a statement about distributions)",
     "skip_low when every autosomal bin is null-coverage (the statement does not say what is centred then)",
-    "expect_flat_log2 on PAR-Y bins with a PAR genome (statement: '-1 on Y'; the code gives 0 there for a male reference): not claimed either way",
+    "expect_flat_log2 on PAR-Y bins with a PAR genome and a MALE reference (statement: '-1 on Y'; the code deliberately gives 0 there): not claimed either way; for a female reference -1 is claimed on all of Y",
 ]
 STUBS = []
 ASSUMPTIONS = []
@@ -176,6 +176,9 @@ def h_flat(ctx, naming, hapx, genome, symrow):
             ctx.cover("PAR-X bin", par)
         elif not par:
             ctx.claim(got[3] == -1, "expect_flat_log2 is -1 on Y (outside PAR)")
+        elif not hapx:
+            ctx.claim(got[3] == -1, "expect_flat_log2 is -1 on Y for a female reference, PAR1/2 included")
+            ctx.cover("PAR-Y bin, female reference")
     ctx.cover("reached")
 
 
@@ -222,6 +225,6 @@ HARNESSES = [
         "expect_flat_log2",
         h_flat,
         [{"naming": nm, "hapx": h, "genome": g, "symrow": sr} for nm in ("chr", "plain") for h in (False, True) for g, sr in ((None, None), ("grch37", "X"), ("grch38", "X"), ("grch37", "Y"), ("grch38", "Y"))],
-        covers=["reached", "PAR-X bin"],
+        covers=["reached", "PAR-X bin", "PAR-Y bin, female reference"],
     ),
 ]
